@@ -398,21 +398,24 @@ class Host(object):
 
     def check_wrote_elsewhere(self, r, snapshot, targets, k):
         """No invocation may create or modify a host file other than the targets it was given."""
+        byproducts = self.__dict__.setdefault("byproducts", set())
         for ev in r.wrote():
             path = ev[2]
             # a scratch file the tool creates and removes again is its own business; a file that was there before is not
-            if path not in targets and path in snapshot and not path.endswith((".asm",)):
+            # (unless an earlier invocation of the tool made it beside its targets: a backup copy, a lock file)
+            if path not in targets and path in snapshot and path not in byproducts and not path.endswith((".asm",)):
                 self.res.violate("WROTE-ELSEWHERE", "the invocation touched %s, which is not one of its targets %r: %r" % (path, sorted(targets), ev[1:4]), k)
                 return
         after = self.w.fs.snapshot()
         for path in sorted(snapshot):
             # files that were there before: a new file beside the targets (a backup copy, a lock file) is not
             # something any property forbids, changing or removing somebody else's file is
-            if path not in targets and snapshot.get(path) != after.get(path):
+            if path not in targets and path not in byproducts and snapshot.get(path) != after.get(path):
                 self.res.violate("WROTE-ELSEWHERE", "%s changed although it is not one of the invocation's targets %r" % (path, sorted(targets)), k)
                 return
         for path in sorted(set(after) - set(snapshot)):
             if path not in targets:
+                byproducts.add(path)
                 self.res.stats["new_file_beside_the_targets_not_judged"] += 1
 
     # -- ops ---------------------------------------------------------------------------------
